@@ -68,6 +68,24 @@ pub struct Script {
     pub read_calls: usize,
     pub read_bytes: usize,
     pub max_read_buf: usize,
+    /// handshake phase: data chunks read are recorded (the cumulative buffers the parser saw)
+    pub hs_phase: bool,
+    pub hs_chunks: Vec<Vec<u8>>,
+    /// a read found the script exhausted (the transport stays silent from now on)
+    pub exhausted_read: bool,
+    pub mirror: Option<std::rc::Rc<std::cell::RefCell<Snapshot>>>,
+}
+
+/// Snapshot of the observable state, shared with the harness so that it survives the transport being
+/// dropped inside the library (failed or panicking handshake).
+#[derive(Default, Clone)]
+pub struct Snapshot {
+    pub log: Vec<String>,
+    pub actual_rds: Vec<String>,
+    pub actual_wrs: Vec<String>,
+    pub actual_fls: Vec<String>,
+    pub hs_chunks: Vec<Vec<u8>>,
+    pub exhausted_read: bool,
 }
 
 impl std::fmt::Debug for Script {
@@ -90,6 +108,10 @@ impl Script {
             read_calls: 0,
             read_bytes: 0,
             max_read_buf: 0,
+            hs_phase: false,
+            hs_chunks: vec![],
+            exhausted_read: false,
+            mirror: None,
         };
         for r in rds {
             let p: Vec<&str> = r.split(':').collect();
@@ -120,12 +142,45 @@ impl Script {
     }
 }
 
+impl Script {
+    pub fn sync(&self) {
+        if let Some(m) = &self.mirror {
+            let mut g = m.borrow_mut();
+            g.log = self.log.clone();
+            g.actual_rds = self.actual_rds.clone();
+            g.actual_wrs = self.actual_wrs.clone();
+            g.actual_fls = self.actual_fls.clone();
+            g.hs_chunks = self.hs_chunks.clone();
+            g.exhausted_read = self.exhausted_read;
+        }
+    }
+    pub fn snapshot(&self) -> Snapshot {
+        Snapshot {
+            log: self.log.clone(),
+            actual_rds: self.actual_rds.clone(),
+            actual_wrs: self.actual_wrs.clone(),
+            actual_fls: self.actual_fls.clone(),
+            hs_chunks: self.hs_chunks.clone(),
+            exhausted_read: self.exhausted_read,
+        }
+    }
+}
+
 impl Read for Script {
     fn read(&mut self, buf: &mut [u8]) -> io::Result<usize> {
+        let r = self.read_inner(buf);
+        self.sync();
+        r
+    }
+}
+
+impl Script {
+    fn read_inner(&mut self, buf: &mut [u8]) -> io::Result<usize> {
         self.read_calls += 1;
         self.max_read_buf = self.max_read_buf.max(buf.len());
         match self.rds.pop_front() {
             None => {
+                self.exhausted_read = true;
                 self.log.push("R:e:wb".into());
                 self.actual_rds.push("e:wb".into());
                 Err(ErrorKind::WouldBlock.into())
@@ -157,6 +212,9 @@ impl Read for Script {
                 self.log.push(format!("R:{h}"));
                 self.actual_rds.push(format!("d:{h}"));
                 self.read_bytes += n;
+                if self.hs_phase {
+                    self.hs_chunks.push(d[..n].to_vec());
+                }
                 if n < d.len() {
                     let rest = d.split_off(n);
                     self.rds.push_front(Rd::Data(rest));
@@ -169,6 +227,19 @@ impl Read for Script {
 
 impl Write for Script {
     fn write(&mut self, buf: &[u8]) -> io::Result<usize> {
+        let r = self.write_inner(buf);
+        self.sync();
+        r
+    }
+    fn flush(&mut self) -> io::Result<()> {
+        let r = self.flush_inner();
+        self.sync();
+        r
+    }
+}
+
+impl Script {
+    fn write_inner(&mut self, buf: &[u8]) -> io::Result<usize> {
         let offered = buf.len();
         match self.wrs.pop_front().unwrap_or(Wr::Accept(usize::MAX)) {
             Wr::Accept(n) => {
@@ -186,7 +257,7 @@ impl Write for Script {
             }
         }
     }
-    fn flush(&mut self) -> io::Result<()> {
+    fn flush_inner(&mut self) -> io::Result<()> {
         match self.fls.pop_front().unwrap_or(Fl::Ok) {
             Fl::Ok => {
                 self.log.push("F:ok".into());
